@@ -6,7 +6,8 @@
 //! line: `C16 <d|i> <token> <token> ... => <obs> <obs> ...`  (one observation per token)
 //!   before `LOAD`: environment steps that build the source tree; `NEW` instead = `Font::new()`
 //!   `I:<key>:<bytes>` insert   `R:<key>` remove   `G:<key>` get   `H:<key>` contains_key   `C` clear
-//!   `T` iter   `K` keys/len/is_empty   `S` Font::save into a fresh sandbox
+//!   `T` iter   `K` keys/len/is_empty   `S`/`SA`/`SE` Font::save into a fresh sandbox whose target holds
+//!   sentinels / is absent / is an empty directory
 //!   `W:<path>:<bytes>` (re)write a file of the source store directory   `D:<path>` delete
 //!   `M:<path>` replace by a directory   `L:<path>:<bytes>` replace by a symlink to a file with these bytes
 //! observation: `<result>#<sorted keys>`; keys are never obtained by forcing a cell (keys() only).
@@ -105,20 +106,30 @@ fn is_env(tok: &str) -> bool {
     tok.starts_with("W:") || tok.starts_with("D:") || tok.starts_with("M:") || tok.starts_with("L:")
 }
 
-fn sandbox(cx: &mut Ctx) -> (PathBuf, PathBuf) {
+/// sandbox for one save.  variant `S`: the target exists and holds sentinels; `SA`: the target path is
+/// absent; `SE`: the target is an existing empty directory.  Sentinels beside and above in every variant.
+fn sandbox(cx: &mut Ctx, variant: &str) -> (PathBuf, PathBuf) {
     cx.saves += 1;
     let sb = cx.dir.join(format!("sb{}", cx.saves));
     let target = sb.join("up").join("target.ufo");
-    std::fs::create_dir_all(target.join("old")).unwrap();
-    std::fs::create_dir_all(target.join("data")).unwrap();
+    std::fs::create_dir_all(sb.join("up")).unwrap();
     std::fs::write(sb.join("side"), b"S0").unwrap();
     std::fs::write(sb.join("up").join("side"), b"S1").unwrap();
-    std::fs::write(target.join("old").join("s"), b"S2").unwrap();
-    std::fs::write(target.join("data").join("stale"), b"S3").unwrap();
+    match variant {
+        "SA" => {}
+        "SE" => std::fs::create_dir(&target).unwrap(),
+        _ => {
+            std::fs::create_dir_all(target.join("old")).unwrap();
+            std::fs::create_dir_all(target.join("data")).unwrap();
+            std::fs::write(target.join("old").join("s"), b"S2").unwrap();
+            std::fs::write(target.join("data").join("stale"), b"S3").unwrap();
+        }
+    }
     (sb, target)
 }
 
-fn tree_dump(sb: &Path) -> String {
+/// the sandbox after a save; after a successful save the files every UFO has are left out
+fn tree_dump(sb: &Path, ok: bool) -> String {
     let mut v = Vec::new();
     for (rel, kind, bytes) in snapshot(sb) {
         if rel.is_empty() {
@@ -126,7 +137,7 @@ fn tree_dump(sb: &Path) -> String {
         }
         let t = "up/target.ufo/";
         if let Some(r) = rel.strip_prefix(t) {
-            if r == "metainfo.plist" || r == "layercontents.plist" || r == "glyphs" || r.starts_with("glyphs/") {
+            if ok && (r == "metainfo.plist" || r == "layercontents.plist" || r == "glyphs" || r.starts_with("glyphs/")) {
                 continue;
             }
         }
@@ -168,7 +179,8 @@ fn store_step<T: DataType>(st: &mut Store<T>, tok: &str) -> String {
 pub fn observe(toks: &[&str]) -> String {
     let kind = toks[1];
     let n = NEXT.fetch_add(1, std::sync::atomic::Ordering::SeqCst);
-    let dir = scratch_root().join(format!("c16-{}", n));
+    let base = case_root();
+    let dir = base.join(format!("c16-{}", n));
     rm_rf(&dir);
     std::fs::create_dir_all(&dir).unwrap();
     let src = dir.join("src.ufo");
@@ -238,8 +250,8 @@ pub fn observe(toks: &[&str]) -> String {
                 continue;
             }
         };
-        if *tok == "S" {
-            let (sb, target) = sandbox(&mut cx);
+        if *tok == "S" || *tok == "SA" || *tok == "SE" {
+            let (sb, target) = sandbox(&mut cx, tok);
             let r = guarded(|| f.save(&target));
             let (res, ok) = match r {
                 Ok(Ok(())) => ("k".to_string(), true),
@@ -249,7 +261,7 @@ pub fn observe(toks: &[&str]) -> String {
                 }
                 Err(_) => ("p".to_string(), false),
             };
-            let tree = tree_dump(&sb);
+            let tree = tree_dump(&sb, ok);
             let it = match guarded(|| if kind == "d" { get_dump(&f.data) } else { get_dump(&f.images) }) {
                 Ok(s) => s,
                 Err(_) => "panic".to_string(),
@@ -282,7 +294,22 @@ pub fn observe(toks: &[&str]) -> String {
     }
     drop(font);
     rm_rf(&dir);
+    let _ = std::fs::remove_dir(&base); // only when empty
     obs.join(" ")
+}
+
+/// Where the per-case trees live.  The histories create, load and save a few small UFOs each; on a
+/// disk-backed scratch directory the file-system latency dominates (20x), so a memory-backed
+/// directory is used when there is one; otherwise the scratch root of the check.
+fn case_root() -> PathBuf {
+    let shm = Path::new("/dev/shm");
+    if shm.is_dir() {
+        let p = shm.join(format!("verif-c16-{}", std::process::id()));
+        if std::fs::create_dir_all(&p).is_ok() {
+            return p;
+        }
+    }
+    scratch_root()
 }
 
 static NEXT: std::sync::atomic::AtomicUsize = std::sync::atomic::AtomicUsize::new(0);
@@ -507,7 +534,7 @@ fn history(rng: &mut Rng) -> Vec<String> {
                 format!("G:{}", hexs(key(rng)))
             }
         } else {
-            "S".to_string()
+            save_tok(rng)
         };
         toks.push(t);
     }
@@ -515,9 +542,17 @@ fn history(rng: &mut Rng) -> Vec<String> {
         toks.push("T".to_string());
     }
     if rng.chance(3, 4) {
-        toks.push("S".to_string());
+        toks.push(save_tok(rng));
     }
     toks
+}
+
+fn save_tok(rng: &mut Rng) -> String {
+    match rng.below(5) {
+        0 | 1 => "SA".to_string(),
+        2 => "SE".to_string(),
+        _ => "S".to_string(),
+    }
 }
 
 fn emit(out: &mut dyn Write, toks: &[String]) {
@@ -550,7 +585,7 @@ pub fn gen(tier: &str, seed: u64, out: &mut dyn Write) {
         }
     }
     let mut rng = Rng::new(seed);
-    let count = if tier == "thorough" { 200_000 } else { 4_000 };
+    let count = if tier == "thorough" { 200_000 } else { 30_000 };
     for _ in 0..count {
         let toks = history(&mut rng);
         emit(out, &toks);
